@@ -29,7 +29,12 @@ META = dict(
                "statement is refuted for the unchanged code (C26_counterexample: nan/inf are written as null; "
                "int/float dict keys come back as strings) - both are recorded known findings, replayed on every run.",
     level_note="Partial: the full property fails on /repo for non-finite floats and non-string dict keys (known "
-               "findings). Trusted: Lean kernel; the model of pydantic's encoder/validator for the field types in use "
+               "findings). Tuples (fixed and variadic) are modelled. A field whose type the model does not cover "
+               "(datetime, bytes, Decimal, a union with a tuple/model/enum member ...) is translated to an opaque type: "
+               "the theorems do not speak about classes containing one; such classes are exercised against the real "
+               "code alone with that field at its default and are listed in the evidence (classes_outside_the_model) - "
+               "a new field type by itself is not a violation, unmodelled constructs (validators, aliases, exclude, "
+               "model_config) still break the proof half. Trusted: Lean kernel; the model of pydantic's encoder/validator for the field types in use "
                "(validated differentially on every run, incl. lax coercions on type-confused input); exactness of the "
                "float text round trip of pydantic/CPython; strings are valid unicode (no lone surrogates).",
     technique="Lean 4 proof (generic dump/validate inversion by induction over a schema datatype + kernel-evaluated "
@@ -737,21 +742,50 @@ def run(ctx: Check) -> int:
                 by_wire[c["wire"]] = dec_val(c["wire"].split(" "))[0]
                 cs.append(c)
         cs += mk(ms, flavor)
-        o, mo = ctx.correspond(f"roundtrip-{flavor}", "Proto", cs, lambda c: ["rt\t" + c["wire"]], impl_rt, nontrivial)
-        streams.append((flavor, cs, o, mo))
+        streams.append((flavor, cs))
     # set iteration order must not matter (model side), checked on the messages that have a set
-    with_sets = [c for c in streams[0][1] if " Z" in c["wire"]][:ctx.n(60, 600)]
-    if with_sets:
-        ctx.correspond("roundtrip-reversed-set-order", "Proto", with_sets, lambda c: ["rtrev\t" + c["wire"]], impl_rt)
+    with_sets = [dict(c, op="rtrev") for c in streams[0][1] if " Z" in c["wire"]][:ctx.n(60, 600)]
+    # malformed envelopes and type-confused fields
+    env = [c for c in corpus if "j" in c] + gen_envelopes(ctx, classes)
+
+    def names_outside_class(j) -> bool:
+        # the model answers `unmodelled` for a class with a field type it does not cover
+        import openpectus.protocol.serialization as S
+        if not isinstance(j, dict) or not isinstance(j.get("_ns"), str) or not isinstance(j.get("_type"), str):
+            return False
+        if j["_ns"] not in S._message_namespace_names:
+            return False
+        mod = S._message_namespaces[S._message_namespace_names.index(j["_ns"])]
+        obj = getattr(mod, j["_type"], None)
+        return isinstance(obj, type) and obj in OPAQUE
+    env = [c for c in env if not names_outside_class(c["j"])]
+    for c in env:
+        ctx.count("envelope:" + c["kind"])
+
+    def all_lines(c):
+        if "j" in c:
+            return ["de\t" + " ".join(enc_j(c["j"]))]
+        return [c.get("op", "rt") + "\t" + c["wire"]]
+
+    def all_impl(c):
+        return show(impl_deserialize(c["j"])) if "j" in c else impl_rt(c)
+
+    def all_nontrivial(c, out):
+        return c["kind"] != "valid" if "j" in c else nontrivial(c, out)
+
+    # one driver session for all streams (interpreter start-up dominates on a busy machine)
+    everything = [c for _, cs in streams for c in cs] + with_sets + env
+    _, mo_all = ctx.correspond("roundtrip(safe,nonfinite,numkeys,reversed-sets)+envelopes", "Proto", everything,
+                               all_lines, all_impl, all_nontrivial)
+    ctx.count("reversed-set-order", len(with_sets))
     # self-test: a model that confuses 1.0 with 1 must be caught by the generated cases
-    fl = [c for c in streams[0][1] if " D" in c["wire"]][:400]
-    idx = {c["wire"]: k for k, c in enumerate(streams[0][1])}
-    if streams[0][3]:
-        ctx.selftest("roundtrip-safe", "Proto", fl, lambda c: ["rtmut\t" + c["wire"]],
-                     [streams[0][3][idx[c["wire"]]] for c in fl])
+    if mo_all:
+        sel = [k for k, c in enumerate(streams[0][1]) if " D" in c["wire"]][:400]
+        ctx.selftest("roundtrip-safe", "Proto", [everything[k] for k in sel], lambda c: ["rtmut\t" + c["wire"]],
+                     [mo_all[k] for k in sel])
 
     # property oracle (independent of the model): unchanged and same type
-    for flavor, cs, outs, _ in streams:
+    for flavor, cs in streams:
         for c in cs:
             m = by_wire[c["wire"]]
             r = impl_roundtrip(m)
@@ -796,28 +830,7 @@ def run(ctx: Check) -> int:
                          f"field at its default: {bad} failed")
     ctx.extra["classes_outside_the_model"] = outside_report
 
-    # envelopes
-    env = [c for c in corpus if "j" in c] + gen_envelopes(ctx, classes)
-
-    def names_outside_class(j) -> bool:
-        # the model answers `unmodelled` for a class with a field type it does not cover
-        import openpectus.protocol.serialization as S
-        if not isinstance(j, dict) or not isinstance(j.get("_ns"), str) or not isinstance(j.get("_type"), str):
-            return False
-        if j["_ns"] not in S._message_namespace_names:
-            return False
-        mod = S._message_namespaces[S._message_namespace_names.index(j["_ns"])]
-        obj = getattr(mod, j["_type"], None)
-        return isinstance(obj, type) and obj in OPAQUE
-    env = [c for c in env if not names_outside_class(c["j"])]
-    for c in env:
-        ctx.count("envelope:" + c["kind"])
-
-    def impl_de(c):
-        return show(impl_deserialize(c["j"]))
-
-    ctx.correspond("deserialize-envelopes", "Proto", env, lambda c: ["de\t" + " ".join(enc_j(c["j"]))], impl_de,
-                   nontrivial=lambda c, o: c["kind"] != "valid")
+    # envelopes: the property demands a protocol error for unknown namespaces / types
     for c in env:
         why = expected_rejection(c["j"])
         if why is None:
@@ -827,10 +840,11 @@ def run(ctx: Check) -> int:
             ctx.fail(Failure("unknown-envelope-accepted", c, f"{why}, but deserialize returned {r[1]!r:.200}"))
         elif r[0] == "exc":
             ctx.fail(Failure("unknown-envelope-wrong-exception", c, f"{why}: raised {r[1]} instead of the protocol error"))
-    from vp.core import drive
-    info = drive("Proto", [["info\tplain", "info\tnonstr-keys"]])[0]
-    ctx.extra["entries_with_unconditional_roundtrip_theorem"] = info[0].split(",")
-    ctx.extra["entries_with_non_string_dict_keys"] = info[1].split(",")
+    if ctx.tier == "thorough":
+        from vp.core import drive
+        info = drive("Proto", [["info\tplain", "info\tnonstr-keys"]])[0]
+        ctx.extra["entries_with_unconditional_roundtrip_theorem"] = info[0].split(",")
+        ctx.extra["entries_with_non_string_dict_keys"] = info[1].split(",")
     ctx.exhaustive = False
     ctx.assumptions = ["strings are valid unicode (no lone surrogates; such a message cannot be sent at all)",
                        "-0.0 and 0.0 are identified",
